@@ -13,6 +13,7 @@
   "mode": "bounded",
   "bounds": "CertificateVerify message <= 1100 bytes (covers RSA-8192 signatures); the function itself is loop-free, protocol version symbolic",
   "unwind": 40,
+  "solver": "cadical",
   "native_replay": true,
   "timeout": 300
 }
